@@ -6,9 +6,9 @@
 here=$(cd "$(dirname "$0")/.." && pwd)
 id=$1; n=$2; shift 2
 checks=${*:-$id}
-wt=/tmp/seed-$id
+wt=/tmp/${SEED_PREFIX:-seed}-$id
 src=$wt/_seed/$n
-dst=$here/seeded/$id-$n
+dst=$here/seeded/$id-${SEED_TAG:-}$n
 [ -f "$src/patch.diff" ] || { echo "no patch in $src"; exit 2; }
 cd "$wt" || exit 2
 git checkout -q -- . 
